@@ -122,6 +122,42 @@ notes_strength = {
  "agent5-C16": "caught as the check stood (character adjacency, added after round 3)",
  "agent5-C17": "strengthened: missed at first; failing builds with several files open (two files including each other, a cycle entered from outside, a failing line four files deep) added to the pool",
  "agent5-C18": "caught as the check stood",
+ "agent6-C01": "strengthened: missed at first; half of the operand-path cases stand behind a `.db` string whose byte count is not its character count (multi-byte characters) or that holds backslash sequences (shared pool gen/ir.rs HOSTILE_STRINGS)",
+ "agent6-C02": "strengthened: missed at first; the `.db` strings of the layout programs also draw from HOSTILE_STRINGS (`a\\x41b`, `23\\xDFC`, a trailing backslash, colons, comment openers)",
+ "agent6-C03": "strengthened: missed at first; rjmp/rcall/brne at the last and first words of every flash size of the table and of the 4 Mi-word default with the target on the other side of the edge (d = 0, 1, largest that fits, one more; as pc±k, as a number, through an .equ)",
+ "agent6-C04": "strengthened: missed at first; every boundary number also written as a computed expression of the same value - 12 shapes, the complement `~k` among them - directly and through a macro argument",
+ "agent6-C05": "strengthened: missed at first; every case also reaches its `.dq` through an `.equ` and a `.set` symbol and with offsets `name+a-b`",
+ "agent6-C06": "strengthened: missed at first; `.db` lines with strings from HOSTILE_STRINGS inside macros that take arguments (the line is re-read after substitution), against the same line written directly and the bytes computed by hand",
+ "agent6-C07": "caught as the check stood",
+ "agent6-C08": "strengthened: missed at first; a third of the conditional directive lines (selected, skipped, nested in skipped text) carry a trailing comment with a colon, a quote, a directive name or a backslash; conditions compare the character literals ':' ';' '\"' '#'",
+ "agent6-C09": "strengthened: the omitted-argument probe list now covers the places where a line still reads well when the parameter vanishes (only operand of .db/.dw/.dd, pasted into a label or symbol, only argument of an inner call, lpm/elpm/spm)",
+ "agent6-C10": "strengthened: missed at first; programs now hold `.org` pieces in .dseg/.eseg that hold nothing but .set/.def/.undef lines, followed by code that uses those names and a later return to that segment without an origin",
+ "agent6-C11": "strengthened: missed at first; files hold macros that are defined and never called whose body contains `.exit` (stored text, not lines of the file)",
+ "agent6-C12": "caught as the check stood (device selected inside a nested macro)",
+ "agent6-C13": "strengthened: missed at first; the whole-program sequences select their device in one of 7 ways (the line itself, body of a macro / nested macro / macro taking the name as argument, selected branch)",
+ "agent6-C14": "strengthened: missed at first; the symbol programs use lds/sts with the bare name of an EEPROM label (letter case of the reference is then varied by the respelling)",
+ "agent6-C15": "strengthened: missed at first (build_str only before); every message program is also built from a main file plus an included file, both beginning with 0-3 blank lines: every message arrives in source order with the line number of the file it stands in",
+ "agent6-C16": "caught as the check stood (doubling ladders through functions)",
+ "agent6-C17": "strengthened: missed at first; 4 (thorough 16) threads build four big programs at the same time (600 calls of a 512-line macro with 31 arguments, an 18-rung .equ ladder, 20000 symbols, 100 nested macros) against the same builds done alone: a budget or counter shared by the builds of a process only shows when big builds overlap",
+ "agent6-C18": "strengthened: missed at first; new source placement LINK - the path given with -s is a symbolic link to a file in another directory, with a different include of the same name next to the link's target",
+ "agent7-C01": "strengthened: missed by C01 at first (C05 caught it); macro arguments in the operand-path slice are computed expressions whose grouping matters (`v+6-(10-4)`, `2v/(8/4)`, `v*(7/4)`)",
+ "agent7-C02": "strengthened: missed at first; in the via-macro variants the `.device` line itself may move into a macro (the part is then only known once macros are expanded)",
+ "agent7-C03": "strengthened: missed at first; the branch as the last line of a file (label with a one-character-shorter namesake, two-digit pc offset) with and without a final line end, LF and CRLF, and in files holding non-UTF-8 bytes or a byte order mark (refused or built right)",
+ "agent7-C04": "strengthened: the right-grouped shapes of the computed-expression paths (`a-(b-c)`, `a/(b/c)`, `a>>(b>>c)`, `a-(b+c)`) through a macro argument",
+ "agent7-C05": "strengthened: missed at first; character literals of every code 1..0x24f and of 18 wide ones (controls, every kind of blank, wide characters) alone, in a sum and in a comparison",
+ "agent7-C06": "strengthened: missed at first; literals of 2^63 and more in every radix reaching .db/.dw/.dd directly, through .equ, through a macro argument and inside an expression (must fail)",
+ "agent7-C07": "caught as the check stood (per-device pipeline writes both files for parts without EEPROM)",
+ "agent7-C08": "strengthened: missed at first; `.exit` lines (also `#exit`, with a label, with a comment) among the hostile content of unselected branches",
+ "agent7-C09": "strengthened: missed at first; every valid macro program once more with a random run of its top-level lines moved into an included file (calls before their definition across the file boundary) built through build_file",
+ "agent7-C10": "strengthened: missed at first; a third of the programs select ATmega128 and a quarter of the aliases bear the names part files give to the pointer halves (xl..zh) on arbitrary registers",
+ "agent7-C11": "strengthened: missed at first; one program in three holds 470 comment lines of multi-byte characters (140 KB), so that every block boundary of a reader falls into a character",
+ "agent7-C12": "strengthened: missed at first; flash of every part up to 9000 words filled to capacity-1 / capacity / capacity+1 by nop, lds, sts and rjmp coming out of nested macro calls (lds/sts count one word on the reduced core)",
+ "agent7-C13": "strengthened: missed at first; a third of the must-fail sequences name the part a second time (same part, another part, through a macro) - that alone fails the build and never un-selects the part",
+ "agent7-C14": "caught after the comment pool got texts ending in a backslash",
+ "agent7-C15": "strengthened: missed at first; every fault kind once more in a file that begins with blank lines and in an included file that begins with blank lines (the error names the line counted in its file)",
+ "agent7-C16": "caught as the check stood (sizes of 2^32 and more)",
+ "agent7-C17": "strengthened: missed at first; the pool holds programs that define one name several times in different spellings (macro redefined in another letter case, under .ifdef, three times; .set/.def/#define in several spellings)",
+ "agent7-C18": "strengthened: missed at first; failing sources whose own texts say `warning:` / `info: ... 0 errors` (.error text, name of a missing include, an undefined symbol named warning) and a building source whose messages say `Failed to` / `error:`",
 }
 for f in sorted(glob.glob(f"{ROOT}/seeded/*/meta.json")):
     m = json.load(open(f))
